@@ -103,7 +103,10 @@ def defuzzifier_facts(check: Check, cname: str) -> dict:
         raise AnalysisError(f"{cname}.defuzzify: expected one loop over the grouped terms")
     h = loops[0]
     it = [q for q, _ in h.pred if q.kind == "iter"][0]
-    iter_t = r.term(h.ast.iter, it)  # type: ignore[union-attr]
+    iter_t = iter_base(r.term(h.ast.iter, it))[0]  # type: ignore[union-attr]
+    if iter_t[0] == "call" and iter_t[1][0] == "attr" and iter_t[1][2] == "grouped_terms":
+        # `for name in groups: groups[name]` ranges over the same activations as `for activated in groups.values()`
+        iter_t = ("call", ("attr", iter_t, "values"), (), ())
     body = cfg.loop_body(h)
     elem = ("elem", iter_t)
     # accumulators: names with a loop-carried definition
@@ -121,13 +124,29 @@ def defuzzifier_facts(check: Check, cname: str) -> dict:
                 inc = rr
             elif _is_acc(rr, name):
                 inc = l
-        accs[name] = {"def": d, "term": t, "inc": inc}
+        accs[name] = {"def": d, "term": t, "inc": _canon(inc, iter_t) if inc is not None else None}
     rets = [n for n in cfg.stmt_nodes() if isinstance(n.ast, ast.Return) and n.ast.value is not None]
     ret_t = r.term(rets[-1].ast.value, rets[-1]) if rets else None  # type: ignore[union-attr]
     ee = early_exits(cfg, h)
     check.require(not ee, "S3", f"{cname}.defuzzify/all-terms", "every grouped activation contributes (the loop is never left early)" if not ee else
                   f"the loop over the activations is left early at line {ee[0].lineno}", loc(fn, ee[0] if ee else h))
     return {"fn": fn, "r": r, "cfg": cfg, "head": h, "iter": iter_t, "elem": elem, "accs": accs, "ret": ret_t, "retnode": rets[-1] if rets else None}
+
+
+def _canon(t: Term, iter_t: Term) -> Term:
+    """Operands of commutative operators sorted; elements of list(X) / enumerate(X) / X are the elements of X."""
+    from .c09 import normalize
+
+    def rec(x):  # type: ignore[no-untyped-def]
+        if isinstance(x, tuple) and x and x[0] == "elem" and len(x) == 2:
+            return ("elem", iter_base(rec(x[1]))[0]) if iter_base(rec(x[1]))[0] != iter_t[1][1] or iter_t[1][2] != "values" else ("elem", iter_t)
+        if isinstance(x, tuple):
+            return tuple(rec(y) for y in x)
+        if isinstance(x, frozenset):
+            return frozenset(rec(y) for y in x)
+        return x
+
+    return normalize(rec(t))
 
 
 def _is_acc(t: Term, name: str) -> bool:
